@@ -190,8 +190,11 @@ func c01Run(w *core.W) {
 	}
 	// F1b: operand-source product in every expression context, at top level and as function tail
 	w.Family("F1-operand-x-expr-context")
-	for _, ec := range exprContexts() {
+	for eci, ec := range exprContexts() {
 		for _, fn := range []bool{false, true} {
+			if fn && !full && eci%2 == 1 {
+				continue // quick: inside the function wrapper every other expression context (all of them at top level)
+			}
 			scope := scTop
 			if fn {
 				scope = scFunc
@@ -200,7 +203,7 @@ func c01Run(w *core.W) {
 			ok := true
 			bo := binops
 			if !full {
-				bo = []string{"+", "-", "/", "<", "&&"} // quick: one operator per code path (INC/concat, operand order, zero check, relational, logic)
+				bo = []string{"+", "-", "/", "<"} // quick: one operator per code path (INC/concat, operand order, zero check, relational)
 			}
 			forms(ops, bo, func(name string, s T) {
 				if !ok {
